@@ -533,3 +533,48 @@ def hooked_histories(ctx, rng, thorough):
         event = index[n]
         ctx.violation(f"Entry.update recorded during a real solver run fails {clauses}: {event}",
                       {"engine": "E3-hook", "event": event, "clauses": clauses})
+
+
+def replay(path):
+    """Re-run one recorded case on /repo's working tree against the contract
+    (specification side: DPGen!Allowed through a one-history TLC run)."""
+    import json
+    from lib.harness import Context
+    dp, inf = _api()
+    with open(path, encoding="utf-8") as handle:
+        case = json.load(handle)["case"]
+    ctx = Context("C16", "quick", 0)
+    ctx.known = []
+    mp, rp = case.get("mp"), case.get("rp")
+    if case.get("engine") == "E2-transition":
+        pre = case["pre"]
+        hist = [tuple(c) for c in (case["offered_before"].get("$set") or [])] + [tuple(case["candidate"])]
+    elif case.get("engine") == "E2-history":
+        hist = [tuple(c) for c in case["history"]]
+    elif "event" in case:
+        print("recorded event:", case["event"], "- rerun the check with the recorded seed to reproduce the session")
+        return 2
+    else:
+        print("nothing to replay")
+        return 2
+    mpe, rpe = mp_rp(dp, mp, rp)
+    entry = dp.Entry(mpe, rpe)
+    session = [{"op": "new", "id": 1, "mp": mp, "rp": rp, "cell": False}]
+    for c in hist:
+        entry.update(cand(dp, inf, c))
+        got, _ = observe(entry, inf)
+        session.append({"op": "update", "id": 1, "cands": [list(c)], "val": got["val"], "tags": sorted(got["tags"])})
+    table = dp.Table((dp.ListDimension(2),), mpe, rpe)
+    handle_ = table[1]
+    session.append({"op": "new", "id": 2, "mp": mp, "rp": rp, "cell": True})
+    for c in hist:
+        handle_.update(cand(dp, inf, c))
+        got, _ = observe(handle_, inf)
+        session.append({"op": "update", "id": 2, "cands": [list(c)], "val": got["val"], "tags": sorted(got["tags"])})
+    print("observed:", session[-1], "(held table handle)", session[len(hist)], "(entry)")
+    chunks, index = trace.split_sessions([session], 1)
+    verdicts, _ = trace.validate("TraceDPEntry", chunks, {"StaleTagsBug": "FALSE"}, jobs=1)
+    for n, clauses in verdicts:
+        print(f"VIOLATION property=C16 replay={path}")
+        print(f"  {index[n]} fails {clauses}")
+    return 1 if verdicts else 0
